@@ -24,49 +24,52 @@ Inductive gerr := EUndefinedRequested (n : name) | EUndefinedDep (t d : name) | 
 (* dag.Graph: vertices in insertion order (the map's keys), edges parent -> child *)
 Record graph := { verts : list name; edges : list (name * name) }.
 
-Inductive res (A : Type) := ROk (a : A) | RErr (e : gerr).
-Arguments ROk {A}. Arguments RErr {A}.
+Inductive res (A : Type) := GOk (a : A) | GErr (e : gerr).
+Arguments GOk {A}. Arguments GErr {A}.
+
+(* the `for _, dep := range currentTask.TaskDependencies` loop of addDependencies, `rec` being the recursive call *)
+Definition go_deps (rec : graph -> name -> res graph) (ds : defs) (t : name) : list name -> graph -> res graph :=
+  fix go (l : list name) (g : graph) : res graph :=
+    match l with
+    | [] => GOk g
+    | d :: rest =>
+      match lookup ds d with
+      | None => GErr (EUndefinedDep t d)
+      | Some _ =>
+        let isNew := negb (mem d (verts g)) in
+        let g1 := {| verts := if isNew then verts g ++ [d] else verts g; edges := edges g ++ [(d, t)] |} in
+        if isNew then
+          match rec g1 d with
+          | GOk g2 => go rest g2
+          | GErr e => GErr e
+          end
+        else go rest g1
+      end
+    end.
 
 (* addDependencies(name): name is already a vertex *)
 Fixpoint add_deps (fuel : nat) (ds : defs) (g : graph) (t : name) : res graph :=
   match fuel with
-  | O => RErr EOutOfFuel
+  | O => GErr EOutOfFuel
   | S f =>
     match lookup ds t with
-    | None => ROk g                      (* unreachable: callers only pass defined names *)
-    | Some deps =>
-      (fix go (l : list name) (g : graph) : res graph :=
-         match l with
-         | [] => ROk g
-         | d :: rest =>
-           match lookup ds d with
-           | None => RErr (EUndefinedDep t d)
-           | Some _ =>
-             let isNew := negb (mem d (verts g)) in
-             let g1 := {| verts := if isNew then verts g ++ [d] else verts g; edges := edges g ++ [(d, t)] |} in
-             if isNew then
-               match add_deps f ds g1 d with
-               | ROk g2 => go rest g2
-               | RErr e => RErr e
-               end
-             else go rest g1
-           end
-         end) deps g
+    | None => GOk g                      (* unreachable: callers only pass defined names *)
+    | Some deps => go_deps (fun g' d => add_deps f ds g' d) ds t deps g
     end
   end.
 
 Fixpoint build_graph_loop (ds : defs) (req : list name) (g : graph) : res graph :=
   match req with
-  | [] => ROk g
+  | [] => GOk g
   | n :: rest =>
     match lookup ds n with
-    | None => RErr (EUndefinedRequested n)
+    | None => GErr (EUndefinedRequested n)
     | Some _ =>
       if mem n (verts g) then build_graph_loop ds rest g
       else
         match add_deps (S (length ds)) ds {| verts := verts g ++ [n]; edges := edges g |} n with
-        | ROk g1 => build_graph_loop ds rest g1
-        | RErr e => RErr e
+        | GOk g1 => build_graph_loop ds rest g1
+        | GErr e => GErr e
         end
     end
   end.
@@ -103,10 +106,10 @@ Fixpoint visit_children (v : name) (cs : list name) (rem : name -> list name) (n
 
 Fixpoint kahn_loop (fuel : nat) (g : graph) (k : nat) (rem : name -> list name) (queue result : list name) : res (list name) :=
   match queue with
-  | [] => ROk result
+  | [] => GOk result
   | v :: q =>
     match fuel with
-    | O => RErr EOutOfFuel
+    | O => GErr EOutOfFuel
     | S f =>
       let '(rem', newq) := visit_children v (pick k (children_of g v)) rem [] in
       kahn_loop f g (S k) rem' (q ++ newq) (result ++ [v])
@@ -117,38 +120,25 @@ Fixpoint kahn_loop (fuel : nat) (g : graph) (k : nat) (rem : name -> list name) 
 Definition kahn (g : graph) : res (list name) :=
   let q0 := filter (fun v => match parents_of g v with [] => true | _ => false end) (pick 0 (verts g)) in
   match q0 with
-  | [] => RErr ECycle                      (* "graph contains a cycle and cannot be sorted" *)
+  | [] => GErr ECycle                      (* "graph contains a cycle and cannot be sorted" *)
   | _ => kahn_loop (S (length (verts g))) g 1 (parents_of g) q0 []
   end.
 
 (* file.New (duplicate definitions) followed by SpokFile.Run up to the run order *)
 Definition run_order (ds : defs) (req : list name) : res (list name) :=
-  if has_dup (map fst ds) then RErr EDuplicate
+  if has_dup (map fst ds) then GErr EDuplicate
   else
     match build_graph ds req with
-    | RErr e => RErr e
-    | ROk g =>
+    | GErr e => GErr e
+    | GOk g =>
       match kahn g with
-      | RErr e => RErr e
-      | ROk o => if Nat.eqb (length o) (length (verts g)) then ROk o else RErr ECycle
+      | GErr e => GErr e
+      | GOk o => if Nat.eqb (length o) (length (verts g)) then GOk o else GErr ECycle
       end
     end.
 End Kahn.
 
 (* ---- the specification side: reachability and valid orders, as executable checkers ---- *)
-
-(* names reachable from req through task dependencies (all names assumed defined); worklist with fuel *)
-Fixpoint reach (fuel : nat) (ds : defs) (work seen : list name) : list name :=
-  match fuel with
-  | O => seen
-  | S f =>
-    match work with
-    | [] => seen
-    | n :: rest =>
-      if mem n seen then reach f ds rest seen
-      else reach f ds (match lookup ds n with Some deps => deps ++ rest | None => rest end) (seen ++ [n])
-    end
-  end.
 
 Fixpoint index_of (x : name) (l : list name) : option nat :=
   match l with
@@ -172,3 +162,13 @@ Definition valid_order (ds : defs) (sel o : list name) : bool :=
                     | Some deps => forallb (fun d => before o d t) deps
                     | None => false
                     end) o.
+
+(* when a command failed spok may (in principle) stop early: what still ran must be duplicate-free, selected,
+   and no task may have run unless all its dependencies ran before it *)
+Definition valid_partial (ds : defs) (sel o : list name) : bool :=
+  negb (has_dup o) && forallb (fun x => mem x sel) o &&
+  forallb (fun t => match lookup ds t with
+                    | Some deps => forallb (fun d => before o d t) deps
+                    | None => false
+                    end) o.
+
